@@ -56,7 +56,7 @@ def run(ctx):
     elif quick:
         args += ["--nevents", "12000", "--ncli", "130", "--nwide", "10"]
     else:
-        args += ["--nevents", "200000", "--ncli", "1500", "--nwide", "100"]
+        args += ["--nevents", "200000", "--ncli", "900", "--nwide", "60"]
     p = vlib.run(args, timeout=3300)
     dist = {}
     for line in p.stdout.split("\n"):
